@@ -616,6 +616,27 @@ func clientHelloGrammar(p *core.Prog, r *core.Run, rule string) {
 			loops[fn] = ls
 		}
 		for h, body := range ls {
+			// the way out of a loop that can only be left at its top: whatever
+			// comes after it is reached whenever the loop is
+			if !body[b] && g.If.Block() == h {
+				only := true
+				for bb := range body {
+					if bb == h {
+						continue
+					}
+					for _, sc := range bb.Succs {
+						if !body[sc] {
+							only = false
+						}
+					}
+					if len(bb.Succs) == 0 {
+						only = false
+					}
+				}
+				if only {
+					return true
+				}
+			}
 			if body[b] && (g.If.Block() == h || body[g.If.Block()] && func() bool {
 				// a test inside the loop that leaves it (bottom-tested loops)
 				for _, s := range g.If.Block().Succs {
